@@ -315,11 +315,16 @@ def truthful(e, l, r):
     return None
 
 
+def empty_doc(d):
+    """YDiff.EmptyDoc: the loader's None at the root (an empty document, or a lone null) holds no data."""
+    return len(d) == 1 and d[0]["k"] == "s" and d[0]["t"] == "null"
+
+
 def uncovered(rep, d):
     """Paths of the leaves of d that no entry path is a prefix of."""
     paths = [e["p"] for e in rep]
     out = []
-    for x in leaf_ids(d):
+    for x in ([] if empty_doc(d) else leaf_ids(d)):
         q = path_of(d, x)
         if not any(len(p) <= len(q) and q[:len(p)] == p for p in paths):
             out.append(q)
@@ -344,6 +349,8 @@ def accounted_side(rep, d, kinds, field):
                 acc[sg] += 1
                 src.setdefault(sg, e["p"])
     have = collections.Counter(leaf_sigs((), d))
+    if empty_doc(d) and not acc:
+        return None             # an empty document's null may go unmentioned (YDiff.AccountedLeft / AccountedRight)
     for sg in sorted(set(acc) | set(have), key=repr):
         if acc[sg] != have[sg]:
             return sg, acc[sg], have[sg], src.get(sg)
